@@ -67,6 +67,18 @@ def judge_case(prop, case, body):
 
         o = convprops.run_v2([case], root)[0]
         return o, (["convert"] if (o["v2"] != o["v3"] or o["v2"]["outcome"] != "ok") else [])
+    if isinstance(case, dict) and "exception_class" in case:
+        import subprocess
+        import tempfile
+        from . import replay as R
+
+        out = tempfile.mktemp(suffix=".exc.json", dir=R.workdir())
+        subprocess.run([R.VENV_PY, os.path.join(R.HERE, "runner", "run_exceptions.py"), out, root], capture_output=True, text=True, timeout=600)
+        d = json.load(open(out))
+        os.unlink(out)
+        recs = [r for r in d if r["cls"] == case["exception_class"]] if isinstance(d, list) else []
+        fails = recs[0]["failures"] if recs else []
+        return fails[:3], sorted(set(f["stage"] for f in fails))
     if isinstance(case, dict) and "source" in case and "files" in case:
         from . import loadcases as L
 
